@@ -14,6 +14,30 @@ open YashModel YashModel.Syntax YashModel.Proto
 
 def runLine (line : String) : String :=
   if line.startsWith "R " then "total\t-" else
+  -- `E <Variant> <source>` / `EP …`: a recorded syntax-error class; the model has no error model and echoes it
+  if line.startsWith "E " || line.startsWith "EP " then
+    match line.splitOn " " with
+    | _ :: v :: _ => s!"syntax-error:{v}\t-"
+    | _ => "bad-case\t-"
+  else
+  -- `F <function definition> <script>`: what `typeset -fp` prints (`print_one`: the definition and a newline,
+  -- for a name that needs no quoting); `J <and-or list> <script>`: the job name (`and_or.to_string()`)
+  if line.startsWith "F " || line.startsWith "J " then
+    match tokenize line with
+    | kind :: toks =>
+      match parseSx toks with
+      | some (sx, _) =>
+        if kind = "F" then
+          match toCommand sx with
+          | some c => s!"fn {encChars (printCommand c ++ ['\n'])}\t-"
+          | none => "bad-case\t-"
+        else
+          match toAndOr sx with
+          | some a => s!"job {encChars (printAndOr a)}\t-"
+          | none => "bad-case\t-"
+      | none => "bad-case\t-"
+    | [] => "bad-case\t-"
+  else
   match tokenize line with
   | "T" :: toks =>
     match parseSx toks with
